@@ -101,3 +101,59 @@ Proof.
   destruct (is_badfilter m), (check_cpt_allowed m (rq_type r)), (rq_https r), (rq_http r), (for_https m),
     (for_http m), (first_party m), (third_party m), (rq_third r); cbn [negb andb orb]; reflexivity.
 Qed.
+
+(* ====================================================================================== *)
+(* validate_options (Generated.ValidateGen)                                                *)
+(* ====================================================================================== *)
+Import ValidateGen.
+
+Definition vatom_val (o : nfopt) (a : vatom) : bool :=
+  match a with
+  | V_csp => is_csp o
+  | V_content_type => is_content_type o
+  | V_redirection => is_redirection o
+  | V_removeparam => is_removeparam_opt o
+  end.
+Definition apply_effect (acc : bool * bool * nat) (e : veffect) : bool * bool * nat :=
+  let '(csp, ct, n) := acc in
+  match e with
+  | E_has_csp => (true, ct, n)
+  | E_has_content_type => (csp, true, n)
+  | E_modifier => (csp, ct, S n)
+  end.
+(* the if-chain of the loop body: first entry one of whose atoms holds *)
+Fixpoint scan_one (entries : list (list vatom * list veffect)) (o : nfopt) (acc : bool * bool * nat)
+  : bool * bool * nat :=
+  match entries with
+  | [] => acc
+  | (atoms, effs) :: rest =>
+      if existsb (vatom_val o) atoms then fold_left apply_effect effs acc else scan_one rest o acc
+  end.
+Fixpoint interp_scan (opts : list nfopt) (acc : bool * bool * nat) : bool * bool * nat :=
+  match opts with
+  | [] => acc
+  | o :: r => interp_scan r (scan_one scan o acc)
+  end.
+Definition interp_validate (opts : list nfopt) : perr unit :=
+  let '(c0, t0, n0) := start in
+  let '(csp, ct, n) := interp_scan opts (c0, t0, N.to_nat n0) in
+  if csp && ct then PErr reject_csp_with_type
+  else if Nat.ltb (N.to_nat modifier_limit) n then PErr reject_modifiers
+  else POk tt.
+
+Lemma interp_scan_is_model opts : forall acc, interp_scan opts acc = validate_scan opts acc.
+Proof.
+  induction opts as [|o r IH]; intros [[csp ct] n]; [reflexivity|].
+  cbn [interp_scan validate_scan]. rewrite IH. f_equal.
+  unfold scan. cbn [scan_one existsb vatom_val fold_left apply_effect].
+  destruct (is_csp o); [reflexivity|]. cbn [orb].
+  destruct (is_content_type o); [reflexivity|]. cbn [orb].
+  rewrite orb_false_r. destruct (is_redirection o || is_removeparam_opt o); reflexivity.
+Qed.
+
+Theorem interp_validate_is_model opts : interp_validate opts = validate_options opts.
+Proof.
+  unfold interp_validate, validate_options, start. rewrite interp_scan_is_model.
+  change (N.to_nat 0) with O.
+  destruct (validate_scan opts (false, false, O)) as [[csp ct] n]. reflexivity.
+Qed.
